@@ -46,6 +46,11 @@ class Boom(Exception):
     """the 'other' exception raised by callbacks"""
 
 
+class BaseBoom(BaseException):
+    """an 'other' exception that derives from BaseException but not from Exception (like
+    KeyboardInterrupt, GeneratorExit or asyncio.CancelledError, but not special-cased by any runtime)"""
+
+
 def tick(x):
     """virtual times are integer valued floats; anything else is shown as text so that it differs"""
     if isinstance(x, bool) or x is None:
@@ -198,7 +203,7 @@ class Runner:
                 raise ExitMainLoop()
             elif k == "boom":
                 tr.append(["raise", False])
-                raise Boom()
+                raise (BaseBoom() if self.case.get("base") else Boom())
             else:
                 raise core.MachineryError("unknown action %r" % (a,))
 
@@ -226,7 +231,7 @@ class Runner:
             try:
                 loop.run()
                 return "returned"
-            except Boom:
+            except (Boom, BaseBoom):
                 return "raised"
             except EnvEnd:
                 return "env_end"
@@ -639,8 +644,11 @@ def oracle_history(trace, outcome, dist=None, batch_stop=False):
 # =====================================================================================
 ADAPTERS = ["select", "zmq", "asyncio", "tornado", "twisted", "trio"]
 SCENARIOS = ["alarms", "many_alarms", "overdue_order", "overdue_remove", "watch", "watch_fd0", "watch_sibling", "idle",
-             "idle_remove", "exc_alarm", "exc_watch", "exc_idle", "exit_alarm", "exit_watch", "exit_idle",
-             "rerun_alarm", "rerun_watch", "rerun_idle"]
+             "idle_remove", "exc_alarm", "exc_watch", "exc_idle", "bexc_alarm", "bexc_watch", "bexc_idle",
+             "exit_alarm", "exit_watch", "exit_idle", "rerun_alarm", "rerun_watch", "rerun_idle", "overdue_many"]
+# overdue_many: delays (units of 10 ms) of alarms that are all overdue when a blocking callback returns
+OVERDUE_MANY = [5, 2, 8, 3, 7, 1, 6, 4]
+OVERDUE_ROUNDS = {"trio": 24, "select": 3, "zmq": 3, "asyncio": 3, "tornado": 1, "twisted": 1}
 # delays (in units) of the many_alarms scenario, registration order; the handles at REMOVED positions are removed before run()
 MANY_DELAYS = [2, 8, 4, 12, 10, 14, 6, 16, 5, 9]
 MANY_REMOVED = [3, 1]
@@ -669,6 +677,27 @@ def adapter_worker(name, scen):
     """runs in a subprocess; prints one JSON line"""
     import time
     from urwid import ExitMainLoop
+    if scen == "overdue_many":
+        # several rounds, a fresh loop each: a blocking callback makes 8 alarms (registered out of order) overdue at
+        # the same time; they must still run in due order.  Runtimes that wake timers in random order need rounds.
+        rounds = []
+        for _rnd in range(OVERDUE_ROUNDS.get(name, 1)):
+            lp = make_loop(name)
+            order = []
+
+            def byebye():
+                raise ExitMainLoop()
+            lp.alarm(0.005, lambda: time.sleep(0.12))
+            for d in OVERDUE_MANY:
+                lp.alarm(d * 0.01, lambda d=d: order.append(d))
+            lp.alarm(0.25, byebye)
+            try:
+                lp.run()
+            except BaseException as e:
+                order.append("raised:" + type(e).__name__)
+            rounds.append(order)
+        print("C13RESULT " + json.dumps({"outcome": "returned", "log": [], "res": {"rounds": rounds}}), flush=True)
+        os._exit(0)
     loop = make_loop(name)
     t0 = time.monotonic()
     log = []
@@ -689,11 +718,13 @@ def adapter_worker(name, scen):
     def bye():
         raise ExitMainLoop()
 
-    boom = Boom("x")
+    boom = BaseBoom("x") if scen.startswith("bexc_") else Boom("x")
 
     def kaboom():
         raise boom
-    raiser = kaboom if scen.startswith("exc_") else bye
+    raiser = kaboom if scen.startswith(("exc_", "bexc_")) else bye
+    if scen.startswith("bexc_"):
+        scen = scen[1:]          # same set-up as exc_*; only the class of the exception differs
 
     if scen == "alarms":
         h5 = [None]
@@ -853,7 +884,7 @@ def adapter_worker(name, scen):
     try:
         loop.run()
         outcome = "returned"
-    except Boom as e:
+    except (Boom, BaseBoom) as e:
         outcome = "raised-same" if e is boom else "raised-other-boom"
     except BaseException as e:
         outcome = "raised:" + type(e).__name__
@@ -889,6 +920,8 @@ def oracle_adapter(case, r):
             t = log[names.index(label)][1]
             if t < due_ms(label, units) - 5:
                 hard.append(f"alarm {label} ran before its due time")
+    if scen.startswith("bexc_"):
+        scen = scen[1:]        # judged exactly like exc_*: the class of the exception must make no difference
     exp_outcome = "raised-same" if scen.startswith("exc_") else "returned"
     if scen.startswith("rerun_"):
         exp_outcome = outcome      # judged below
@@ -941,6 +974,15 @@ def oracle_adapter(case, r):
                 break
             if names.count("t%d" % (i + 1)) > 3:
                 soft.append("the raising callback kept running: the loop did not stop")
+    elif scen == "overdue_many":
+        for order in res.get("rounds", []):
+            if sorted(map(str, order)) != sorted(map(str, OVERDUE_MANY)):
+                soft.append("an overdue alarm did not run exactly once before the backstop alarm stopped the loop")
+            elif order != sorted(OVERDUE_MANY):
+                hard.append("overdue alarms ran out of due order (an alarm ran before an alarm due earlier; 8 alarms overdue together)")
+                break
+        if not res.get("rounds"):
+            soft.append("the overdue_many scenario produced no round")
     elif scen == "overdue_order":
         for lab, u in (("slow", 1), ("d2", 2), ("d3", 3), ("d4", 4)):
             check_alarm(lab, u)
@@ -1082,8 +1124,8 @@ class C13(core.Check):
                   "run (asyncio_checked_run_contract_partial).  NOT proved: that the asyncio host model satisfies host_ok on ALL "
                   "runs (asyncio_host_meets_spec_full is stated only); alarm ORDER for adapters (host property; oracle only).  ORACLE "
                   "ONLY (no theorem): tornado, twisted, trio adapters and asyncio/zmq/select on their real poller/selector are "
-                  "contract-tested on the real runtimes (18 scenarios each: order, once-ness, not-before-due, removal results, "
-                  "same-batch sibling removal, overdue order, many out-of-order alarms with removals, descriptor 0, idle-after-callback, exception propagation, run() called again after an exception); no known finding is left; glib is not installed "
+                  "contract-tested on the real runtimes (22 scenarios each: order, once-ness, not-before-due, removal results, "
+                  "same-batch sibling removal, overdue order, many out-of-order alarms with removals, descriptor 0, idle-after-callback, exception propagation also for BaseException-derived exceptions, 8 alarms overdue together in repeated rounds, run() called again after an exception); no known finding is left; glib is not installed "
                   "and not covered.")
     level_note = ("Trusted: Coq kernel; ExtrOcamlBasic extraction + OCaml driver; the hand-written models (validated by the "
                   "correspondence, not proved against CPython); the virtual environment (Python VEnv/FakeSel/FakePoller and "
@@ -1097,7 +1139,7 @@ class C13(core.Check):
             "behaviours (remove sibling/self, double remove, remove+re-add, add alarm incl. overdue, add idle/watch, slow "
             "callback, ExitMainLoop, other exception) x environments (quick: sampled, thorough: all) + random cases + cases with "
             "5..10 alarms registered in arbitrary order with removals of inner entries (thorough: every order of 7); "
-            "non-trivial = at least one callback ran; distinct by hash of (case, history); adapter cases = 6 loops x 18 scenarios "
+            "non-trivial = at least one callback ran; distinct by hash of (case, history); adapter cases = 6 loops x 22 scenarios "
             "(incl. 10 out-of-order alarms with removals, a watched descriptor number 0, three run() calls on one loop object)")
     trusted_base = [
         "Coq 8.16.1 kernel (coqc; vm_compute only for closed examples and the refutation witness)",
@@ -1233,7 +1275,10 @@ class C13(core.Check):
                                 beh = [[actor, when, acts], [40, -1, rng.choice([[], [["exit"]], [["rm_idle", 2]], [["boom"]]])],
                                        [42, -1, rng.choice([[], [["rm_watch", 7]], [["exit"]]])]]
                                 for env in envs:
-                                    yield {"loop": loop, "setup": setup, "beh": beh, "env": env}
+                                    case = {"loop": loop, "setup": setup, "beh": beh, "env": env}
+                                    if any(a[0] == "boom" for e in beh for a in e[2]) and rng.random() < 0.5:
+                                        case["base"] = True
+                                    yield case
 
     def random_action(self, rng):
         k = rng.choice(["nop", "alarm", "alarm", "rm_alarm", "rm_alarm", "watch", "rm_watch", "rm_watch", "idle", "rm_idle",
@@ -1269,12 +1314,16 @@ class C13(core.Check):
             if rng.random() < 0.7:       # raising is interesting but ends the run: keep it rarer
                 acts = [a for a in acts if a[0] not in ("exit", "boom")] or [["nop"]]
             beh.append([rng.choice(list(range(10, 18)) + list(range(20, 24)) + list(range(30, 34))), rng.choice([-1, -1, 0, 1, 2]), acts])
+        base = rng.random() < 0.3
         env = []
         for _ in range(rng.choice([3, 6, 10, 16])):
             fds = [fd for fd in (0, 7, 8, 9) if rng.random() < 0.3]
             rng.shuffle(fds)
             env.append([rng.choice([0, 0, 0, 1, 2, 4]), fds])
-        return {"loop": loop, "setup": setup, "beh": beh, "env": env}
+        case = {"loop": loop, "setup": setup, "beh": beh, "env": env}
+        if base:
+            case["base"] = True      # the other exception derives from BaseException, not from Exception
+        return case
 
     def many_alarms_case(self, loop, rng, delays=None):
         """5..10 pending alarms registered in an arbitrary order, inner entries removed (before run() and from
